@@ -33,8 +33,9 @@ type c10Case struct {
 	VOD       bool   `json:"vod"`
 	AudioLead int    `json:"audio_lead_ms"` // >0: audio starts that much before the video (and is multiplexed first); <0: after
 	NSeg      int    `json:"nseg"`
-	Video     string `json:"video,omitempty"` // fMP4 video codec: "" = h264, h265 (announced as hvc1), h265:hev1, av1, vp9
-	Audio     string `json:"audio,omitempty"` // fMP4 audio codec: "" = aac, opus
+	Video     string `json:"video,omitempty"`  // fMP4 video codec: "" = h264, h265 (announced as hvc1), h265:hev1, av1, vp9
+	Audio     string `json:"audio,omitempty"`  // fMP4 audio codec: "" = aac, opus
+	VScale    int    `json:"vscale,omitempty"` // fMP4: timescale of the video track (default 90000)
 }
 
 func c10IsVideo(kind string) bool {
@@ -93,6 +94,9 @@ func c10VideoData(kind string, seq int, sync bool) [][]byte {
 }
 
 func (c c10Case) String() string {
+	if c.VScale != 0 {
+		return fmt.Sprintf("%s video-timescale=%d base=%d tracks=%s bframes=%v pdt=%v vod=%v nseg=%d", c.Container, c.VScale, c.Base, c.Tracks, c.BFrames, c.PDT, c.VOD, c.NSeg)
+	}
 	if c.Video != "" || c.Audio != "" {
 		return fmt.Sprintf("%s[%s] base=%d tracks=%s bframes=%v frags=%d range=%v pdt=%v vod=%v audiolead=%dms nseg=%d", c.Container, c.codecsAttr(), c.Base, c.Tracks, c.BFrames, c.Frags, c.Range, c.PDT, c.VOD, c.AudioLead, c.NSeg)
 	}
@@ -129,6 +133,10 @@ func c10Build(cs c10Case) (*c10Stream, error) {
 	}
 	audioRates := []int{48000, 44100, 32000}
 	vk, ak := cs.videoKind(), cs.audioKind()
+	vscale := 90000
+	if cs.VScale != 0 && !ts {
+		vscale = cs.VScale
+	}
 	if ak == "opus" {
 		audioRates = []int{48000, 48000, 48000}
 	}
@@ -136,13 +144,13 @@ func c10Build(cs c10Case) (*c10Stream, error) {
 	var layout0 []trk
 	switch cs.Tracks {
 	case "v":
-		layout = [][]trk{{{vk, 90000}}}
+		layout = [][]trk{{{vk, vscale}}}
 	case "a":
 		layout = [][]trk{{{ak, 48000}}}
 	case "va":
-		layout = [][]trk{{{vk, 90000}, {ak, audioRates[1]}}}
+		layout = [][]trk{{{vk, vscale}, {ak, audioRates[1]}}}
 	case "av":
-		layout = [][]trk{{{ak, audioRates[1]}, {vk, 90000}}}
+		layout = [][]trk{{{ak, audioRates[1]}, {vk, vscale}}}
 	case "xva", "vxa", "xav":
 		// MPEG-TS with a track the client does not support in this container (Opus) at every position of the PMT
 		for _, ch := range cs.Tracks {
@@ -150,14 +158,14 @@ func c10Build(cs c10Case) (*c10Stream, error) {
 			case 'x':
 				layout0 = append(layout0, trk{"opus", 48000})
 			case 'v':
-				layout0 = append(layout0, trk{vk, 90000})
+				layout0 = append(layout0, trk{vk, vscale})
 			case 'a':
 				layout0 = append(layout0, trk{ak, audioRates[1]})
 			}
 		}
 		layout = [][]trk{layout0}
 	case "v+a", "v+aa", "v+aaa":
-		layout = [][]trk{{{vk, 90000}}}
+		layout = [][]trk{{{vk, vscale}}}
 		for i := 0; i < len(cs.Tracks)-2; i++ {
 			layout = append(layout, []trk{{ak, audioRates[i]}})
 		}
@@ -184,6 +192,10 @@ func c10Build(cs c10Case) (*c10Stream, error) {
 						u.DTS = t90
 						if cs.BFrames {
 							u.PTSOff = []int64{22500, 67500, 0, 0}[k]
+						}
+						if vscale != 90000 {
+							// the same instants expressed in the video track's own timescale
+							u.DTS, u.Dur, u.PTSOff = scaleTicks(t90, vscale), scaleTicks(22500, vscale), scaleTicks(u.PTSOff, vscale)
 						}
 						units = append(units, u)
 					}
@@ -649,6 +661,16 @@ func c10Cases(tier string) map[string][]c10Case {
 	}
 	for _, tracks := range []string{"a", "va", "v+a"} {
 		out["fmp4 codecs"] = append(out["fmp4 codecs"], c10Case{Container: "fmp4", Base: 0, Tracks: tracks, Frags: 3, PDT: true, VOD: false, NSeg: 4, Audio: "opus"})
+	}
+	// other video timescales (1 kHz, 600 Hz, 10 MHz) with base times up to 2^40 ticks of that timescale
+	for _, vs := range []int{1000, 600, 10_000_000} {
+		for _, base := range []int64{0, 540000, (1 << 40) / int64(vs) * 90000} {
+			for _, tracks := range []string{"v", "va", "v+a", "v+aa"} {
+				for _, bf := range []bool{false, true} {
+					out["fmp4 timescales"] = append(out["fmp4 timescales"], c10Case{Container: "fmp4", Base: base, Tracks: tracks, BFrames: bf, Frags: 1, PDT: true, VOD: true, NSeg: 3, VScale: vs})
+				}
+			}
+		}
 	}
 	// many fragments per segment
 	for _, n := range []int{10, 11, 12, 16} {
